@@ -35,6 +35,10 @@ func modelLower(c rune) rune {
 		return c + 32
 	case 931 <= c && c <= 939:
 		return c + 32
+	case 8544 <= c && c <= 8559:
+		return c + 16
+	case 9398 <= c && c <= 9423:
+		return c + 26
 	case c == 8490:
 		return 107
 	}
@@ -184,7 +188,7 @@ func runExtract(w *gen.Writer, r *gen.Rand, f gen.Flags) {
 // the table of the successor of every member of the three runes' fold orbits.
 func runCaseNgrams(w *gen.Writer, r *gen.Rand, f gen.Flags) {
 	n := f.N(600, 20000)
-	pool := []rune("abkKsSσΣς-_9éÉ日ßẞǅǆ\u212a\u017fİıθϑ")
+	pool := []rune("abkKsSσΣς-_9éÉ日ßẞǅǆ\u212a\u017fİıθϑ\u2167\u2177\u216b\u24b6\u24d0\u24e9\u0345 .")
 	for c := 0; c < n; c++ {
 		var rs [3]rune
 		for i := range rs {
@@ -217,6 +221,9 @@ func runCaseNgrams(w *gen.Writer, r *gen.Rand, f gen.Flags) {
 			out = append(out, fmt.Sprintf("%d.%d.%d", v[0], v[1], v[2]))
 		}
 		class := fmt.Sprintf("case-variants-%d", len(vs))
+		if hasCasedNonLetterTrigram(string(rs[:])) {
+			w.Count("case-variants-of-a-cased-non-letter-trigram", 1)
+		}
 		w.Emit(gen.Case{In: fmt.Sprintf("casengrams %d,%d,%d %s", rs[0], rs[1], rs[2], strings.Join(tb, ",")),
 			Impl: "variants=" + strings.Join(out, "|"), Class: class, Nontrivial: len(vs) > 1})
 	}
